@@ -95,8 +95,12 @@ Ops == {"read", "write", "mkdir", "list", "stat", "chmod", "remove"}
 E(k, loc) == [k |-> k, loc |-> loc]
 Children(fs, p) == {q \in DOMAIN fs : Len(q) = Len(p) + 1 /\ SubSeq(q, 1, Len(p)) = p}
 
+(* mkdir never follows a link in the last component, trailing separators or not ("l/" with a dangling l: EEXIST) *)
+RECURSIVE TrimSlashes(_)
+TrimSlashes(cs) == IF cs # <<>> /\ cs[Len(cs)] = "" THEN TrimSlashes(Front(cs)) ELSE cs
+
 Eff(fs, op, sp) ==
-  LET w    == Resolve(fs, sp, op \notin {"mkdir", "remove"})
+  LET w    == Resolve(fs, IF op = "mkdir" THEN Sp(sp.abs, TrimSlashes(sp.c)) ELSE sp, op \notin {"mkdir", "remove"})
       kind == IF w.st = "ok" /\ w.ex THEN fs[w.loc].k ELSE "none"
   IN CASE op = "read"   -> IF kind = "file" THEN {E("read", w.loc)} ELSE {}
        [] op = "write"  -> IF kind = "file" THEN {E("modify", w.loc)}
